@@ -14,11 +14,40 @@ import sys
 import time
 
 
+class StepTimeout(BaseException):
+    """an editing step or a search did not return within the budget (treated as 'did not complete')"""
+
+
+def limited(fn, secs=20):
+    import signal
+
+    def _alarm(*a):
+        raise StepTimeout()
+    old = signal.signal(signal.SIGALRM, _alarm)
+    signal.alarm(secs)
+    try:
+        return fn()
+    finally:
+        signal.alarm(0)
+        signal.signal(signal.SIGALRM, old)
+
+
 def run(tier='quick', seed=0, observer=None, n_goals_override=None):
     t0 = time.time()
     if os.environ.get('HOLPY_REPO', '/repo') not in sys.path:
         sys.path.insert(0, os.environ.get('HOLPY_REPO', '/repo'))
     os.chdir(os.environ.get('HOLPY_REPO', '/repo'))
+    try:
+        # recorded library steps include the z3 method. z3 answers 'unknown' on some of these quantified goals
+        # depending on solver state (the same query is proved at once, then given up on), which is outside C13 (the
+        # external step is C06): the sessions run with holpy's own switch check_z3 = False (z3 lines are accepted
+        # without calling the solver), so that every run replays the same way. The timeout only guards stray calls.
+        import z3
+        z3.set_param('timeout', 5000)
+        from prover import z3wrapper
+        z3wrapper.check_z3 = False
+    except Exception:
+        pass
     from logic import basic, context
     basic.load_theory('logic_base')
     from kernel import theory
@@ -133,8 +162,10 @@ def run(tier='quick', seed=0, observer=None, n_goals_override=None):
         """Apply step to a copy. Returns the edited copy or None when the step does not complete."""
         st = copy.copy(state)
         try:
-            method.apply_method(st, step)
-            st.check_proof(compute_only=True)
+            limited(lambda: (method.apply_method(st, step), st.check_proof(compute_only=True)))
+        except StepTimeout:
+            stats['timeouts'] = stats.get('timeouts', 0) + 1
+            return None
         except Exception:
             return None
         return st
@@ -180,14 +211,20 @@ def run(tier='quick', seed=0, observer=None, n_goals_override=None):
                     return
             else:
                 try:
-                    method.apply_method(state, step)
-                    state.check_proof(compute_only=True)
+                    limited(lambda: (method.apply_method(state, step), state.check_proof(compute_only=True)))
+                except StepTimeout:
+                    stats['timeouts'] = stats.get('timeouts', 0) + 1
+                    return
                 except Exception as e:
                     report([('determinism', 'step completed on a copy but raised on the live state: %s' %
                              str(e)[:150])], goal_str, trace + [step], 'step %d' % k)
                     return
                 trace.append(dict(step, _on='live'))
-            errs = check_state(state, goal_th, ctx_vars, trace)
+            try:
+                errs = limited(lambda: check_state(state, goal_th, ctx_vars, trace), 120)
+            except StepTimeout:
+                stats['timeouts'] = stats.get('timeouts', 0) + 1
+                return
             if errs:
                 report(errs, goal_str, trace, 'after step %d' % k)
                 return
@@ -345,8 +382,8 @@ def run(tier='quick', seed=0, observer=None, n_goals_override=None):
             rng.shuffle(fs)
         if rng.random() < 0.6:
             try:
-                res = state.search_method(str(gid), [str(f) for f in fs])
-            except Exception:
+                res = limited(lambda: state.search_method(str(gid), [str(f) for f in fs]))
+            except (Exception, StepTimeout):
                 res = []
             if res:
                 step = dict(rng.choice(res))
@@ -408,7 +445,7 @@ def run(tier='quick', seed=0, observer=None, n_goals_override=None):
                         target = later[0] if later else None
                     if target is None:
                         return random_step(state, k)
-                    res = state.search_method(str(target), [str(mem['cut'])])
+                    res = limited(lambda: state.search_method(str(target), [str(mem['cut'])]))
                     res = [r for r in res if r.get('fact_ids')]
                     if res:
                         st_ = dict(rng.choice(res))
@@ -425,7 +462,7 @@ def run(tier='quick', seed=0, observer=None, n_goals_override=None):
                         return random_step(state, k)
                     return {'method_name': 'apply_forward_step', 'goal_id': str(c), 'fact_ids': [str(mem['fact'])],
                             'theorem': mem['thname']}
-            except Exception as e:
+            except (Exception, StepTimeout) as e:
                 if os.environ.get('C13_DEBUG'):
                     import traceback; traceback.print_exc()
                 mem['stage'] = 9
@@ -451,7 +488,12 @@ def run(tier='quick', seed=0, observer=None, n_goals_override=None):
     n_goals = 240 if tier == 'quick' else 1200
     if n_goals_override is not None:
         n_goals = n_goals_override
+    t_last = [time.time()]
     for gi in range(n_goals):
+        if os.environ.get('C13_TIMING') and time.time() - t_last[0] > 5:
+            print('TIMING goal %d took %.1fs (total %.0fs)' % (gi - 1, time.time() - t_last[0], time.time() - t0),
+                  file=sys.stderr, flush=True)
+        t_last[0] = time.time()
         context.set_context('logic_base', vars=dict(gen_vars))
         nas = rng.choice([0, 1, 2, 2])
         if gi % 3 == 0:
@@ -486,6 +528,7 @@ def run(tier='quick', seed=0, observer=None, n_goals_override=None):
 
     # ---------------------------------------------------------------- (2) recorded library steps
     thys = ['logic_base'] if tier == 'quick' else ['logic_base', 'logic', 'function', 'set']
+    lib_deadline = time.time() + (120 if tier == 'quick' else 420)     # wall-clock budget of the library part
     for thy_name in thys:
         with open(os.environ.get('HOLPY_REPO', '/repo') + '/library/%s.json' % thy_name, encoding='utf-8') as f:
             content = json.load(f)['content']
@@ -493,6 +536,12 @@ def run(tier='quick', seed=0, observer=None, n_goals_override=None):
         if tier != 'quick' and thy_name == 'set':
             vals = rng.sample(vals, 12)
         for val in vals:
+            if time.time() > lib_deadline:
+                stats['library_time_budget_hit'] = stats.get('library_time_budget_hit', 0) + 1
+                break
+            thm_deadline = time.time() + 60           # one recorded proof: at most a minute of replay
+            if os.environ.get('C13_TIMING'):
+                print('TIMING library %s.%s at %.0fs' % (thy_name, val['name'], time.time() - t0), file=sys.stderr, flush=True)
             try:
                 basic.load_theory(thy_name)     # whole theory: the intros macro itself cites library theorems
                 context.set_context(None, vars=val['vars'])
@@ -504,8 +553,8 @@ def run(tier='quick', seed=0, observer=None, n_goals_override=None):
             steps = list(val['steps'])
             pos = [0]
 
-            def recorded(state, k, steps=steps, pos=pos):
-                if pos[0] >= len(steps):
+            def recorded(state, k, steps=steps, pos=pos, thm_deadline=thm_deadline):
+                if pos[0] >= len(steps) or time.time() > thm_deadline:
                     return None
                 if rng.random() < 0.25:
                     # a perturbed step: only on a copy that is then thrown away (keeps the recorded ids valid)
@@ -518,7 +567,10 @@ def run(tier='quick', seed=0, observer=None, n_goals_override=None):
                                    val['name'], [st], 'library replay')
                         elif cp is not None:
                             stats['steps_done'] += 1
-                            errs = check_state(cp, goal_th, ctx_vars, [])
+                            try:
+                                errs = limited(lambda: check_state(cp, goal_th, ctx_vars, []), 120)
+                            except StepTimeout:
+                                errs = []
                             if errs:
                                 report(errs, val['name'], steps[:pos[0]] + [{kk: vv for kk, vv in st.items() if not kk.startswith('_') and kk != 'display'}], 'perturbed step after %d recorded steps' % pos[0])
                 s = dict(steps[pos[0]])
